@@ -440,11 +440,14 @@ func (ssc *defaultStatefulSetControl) updateStatefulSet(
 			if err := ssc.podControl.DeleteStatefulPod(set, replicas[i]); err != nil {
 				return &status, err
 			}
-			if getPodRevision(replicas[i]) == currentRevision.Name {
-				status.CurrentReplicas--
-			}
-			if getPodRevision(replicas[i]) == updateRevision.Name {
-				status.UpdatedReplicas--
+			// only a pod that the census above counted is taken out of the revision counters
+			if !isTerminating(replicas[i]) {
+				if getPodRevision(replicas[i]) == currentRevision.Name {
+					status.CurrentReplicas--
+				}
+				if getPodRevision(replicas[i]) == updateRevision.Name {
+					status.UpdatedReplicas--
+				}
 			}
 			status.Replicas--
 			replicas[i] = newVersionedStatefulSetPod(
@@ -579,7 +582,9 @@ func (ssc *defaultStatefulSetControl) updateStatefulSet(
 				set.Name,
 				replicas[target].Name)
 			err := ssc.podControl.DeleteStatefulPod(set, replicas[target])
-			status.CurrentReplicas--
+			if getPodRevision(replicas[target]) == currentRevision.Name {
+				status.CurrentReplicas--
+			}
 			return &status, err
 		}
 
